@@ -169,7 +169,7 @@ impl Property for C08 {
     }
     fn cases(&self, tier: Tier) -> u32 {
         match tier {
-            Tier::Quick => 10_000,
+            Tier::Quick => 25_000,
             Tier::Thorough => 300_000,
         }
     }
